@@ -5,7 +5,7 @@ FROM="$1"; TO="$2"; shift; shift
 IDS="${*:-$(python3 -c "import json;print(' '.join(c['property_id'] for c in json.load(open('/verif/MANIFEST.json'))['checks']))")}"
 BIN=/verif/harness/target/release/pkverif
 S=$(mktemp -d /tmp/pkverif-sweep.XXXXXX)
-for id in $IDS; do for s in $(seq $FROM $TO); do echo "$id $s"; done; done | xargs -P 10 -L 1 bash -c '
+for id in $IDS; do for s in $(seq $FROM $TO); do echo "$id $s"; done; done | xargs -P 6 -L 1 bash -c '
   r='"$S"'/$0-$1; mkdir -p $r; cp /verif/KNOWN_FINDINGS.txt $r/; mkdir -p $r/replays; cp -r /verif/replays/regress $r/replays/ 2>/dev/null
   out=$(VERIF_ROOT=$r VERIF_SEED=$1 '"$BIN"' $0 quick 2>&1); rc=$?
   if [ $rc -ne 0 ]; then echo "NONZERO $0 seed=$1 rc=$rc $(echo "$out" | grep -E "VIOLATION|stage=|self-test|INCONCL" | head -3 | tr "\n" " " | cut -c1-400)"; mkdir -p /tmp/sweep-keep; cp -r $r /tmp/sweep-keep/ 2>/dev/null; fi
